@@ -833,6 +833,10 @@ class Aspire:
             config_dict["xp"] = resolve_xp(config_dict["xp"])
         config_dict["log_likelihood"] = log_likelihood
         config_dict["log_prior"] = log_prior
+        # Flow options are stored under their own key but are passed to the
+        # constructor as plain keyword arguments
+        flow_kwargs = config_dict.pop("flow_kwargs", None) or {}
+        config_dict.update(flow_kwargs)
 
         aspire = Aspire(**config_dict)
 
